@@ -303,22 +303,6 @@ theorem pathW_append (W : Weights) : ∀ (p : List Nat) (s t : Schema) (q : List
       simp only [hk] at h
       simp only [List.cons_append, pathW, hk, ih c t q h, Nat.add_assoc]
 
-theorem at?_leaf_mem : ∀ (p : List Nat) (s : Schema), s.at? p = some .leaf → p ∈ s.leaves := by
-  intro p
-  induction p with
-  | nil => intro s h; simp only [Schema.at?, Option.some.injEq] at h; subst h; simp [Schema.leaves]
-  | cons i p ih =>
-    intro s h
-    rw [at?_cons] at h
-    cases hk : s.kids[i]? with
-    | none => simp [hk] at h
-    | some c =>
-      simp only [hk] at h
-      have hne : s ≠ .leaf := by intro e; subst e; simp [Schema.kids] at hk
-      rw [leaves_eq_kids s hne]
-      have := leaves_go_mem_of s.kids 0 i c p hk (ih c h)
-      simpa using this
-
 /-- the bit weight of any node path is at most the metadata's `max_bits` -/
 theorem node_bits_le_max (s t : Schema) (hwf : s.WF) (p : List Nat) (ht : s.at? p = some t) :
     pathW Wbits s p ≤ s.meta.maxBits := by
